@@ -42,7 +42,7 @@ def count(evs):
 def check(tier):
     return dc.check(PID, tier, "c14", ["MC_Tables_keys_q.cfg", "MC_Tables_prefix_q.cfg"],
                     ["MC_Tables_keys_t.cfg", "MC_Tables_both_t.cfg", "MC_Tables_prefix_t.cfg", "MC_Tables_prefixpk_t.cfg"], "MC_Tables_keys_dump.cfg",
-                    floors={"statements": 300, "changed": 100, "err:dup": 40, "ok:": 150, "statements_on_prefix_key_tables": 100, "dup_on_prefix_key_tables": 15}, rule=RULE, count=count)
+                    floors={"statements": 300, "changed": 100, "err:dup": 40, "ok:": 150, "statements_on_prefix_key_tables": 100}, rule=RULE, count=count)
 
 
 def replay(path):
